@@ -12,11 +12,13 @@ theorem facts_C20 : apiHas apiC20 = true := by decide
 variables of the packages this property's code lives in, the functions (other than `init`) that
 assign to them or call methods on them, and the fields of the property's struct types. The model is
 a pure function of the arguments and of these fields; a new variable, writer or field is state the
-model does not know of. The digest-valued entries cover, per package: every declared function and
-method with its receiver kind (`funcs:`), every function-reads-package-variable pair (`reads:`) and
-every write through a parameter or receiver, including in-place `sort.*`/`copy` (`pwrites:`); the
-lists behind the digests are in `funcs_expected.txt` and in comments of the generated file. -/
-def stateC20 : List (String × String) := [("globals:stats", "ErrMismatchedSamples ErrSampleSize ErrSamplesEqual ErrZeroVariance MannWhitneyExactLimit MannWhitneyTiesExactLimit StdNormal _KDEBoundaryMethod_index _KDEKernel_index _LocationHypothesis_index inf nan quantileCIApproxThreshold"), ("globals:mathx", "nan smallFact"), ("globals:vec", ""), ("globals:fit", ""), ("globals:scale", ""), ("globals:graph", ""), ("globals:graphalg", ""), ("globals:graphout", ""), ("globalwrites:stats", "MannWhitneyUTest:StdNormal.CDF"), ("globalwrites:mathx", ""), ("globalwrites:vec", ""), ("globalwrites:fit", ""), ("globalwrites:scale", ""), ("globalwrites:graph", ""), ("globalwrites:graphalg", ""), ("globalwrites:graphout", ""), ("fields:stats.Sample", "Xs:[]float64 Weights:[]float64 Sorted:bool"), ("fields:stats.KDE", "Sample:Sample Kernel:KDEKernel Bandwidth:float64 BoundaryMethod:KDEBoundaryMethod BoundaryMin:float64 BoundaryMax:float64"), ("fields:stats.UDist", "N1:int N2:int T:[]int"), ("fields:stats.StreamStats", "Count:uint Total:float64 Min:float64 Max:float64 mean:float64 meanOfSquares:float64 vM2:float64"), ("fields:stats.LinearHist", "min:float64 max:float64 delta:float64 low:uint high:uint bins:[]uint"), ("fields:scale.Linear", "Min:float64 Max:float64 Base:int Clamp:bool"), ("fields:scale.Log", "private:struct{} Min:float64 Max:float64 Base:int Clamp:bool"), ("fields:graphalg.NodeMarks", "marks:[]uint32"), ("fields:fit.PolynomialRegressionResult", "Coefficients:[]float64 F:func(xfloat64)float64"), ("funcs:stats", "n=117 fnv64a=f105f997db64badb"), ("reads:stats", "n=25 fnv64a=8314b76793c8b23b"), ("pwrites:stats", "n=12 fnv64a=4e7a6b5338e6d373"), ("funcs:mathx", "n=13 fnv64a=721c592b642cc9ba"), ("reads:mathx", "n=2 fnv64a=0b5c58057d585a6b"), ("pwrites:mathx", "n=0 fnv64a=cbf29ce484222325"), ("funcs:vec", "n=6 fnv64a=d885ec76a92e6ea6"), ("reads:vec", "n=0 fnv64a=cbf29ce484222325"), ("pwrites:vec", "n=0 fnv64a=cbf29ce484222325"), ("funcs:fit", "n=7 fnv64a=f65a921a2a760cf0"), ("reads:fit", "n=0 fnv64a=cbf29ce484222325"), ("pwrites:fit", "n=2 fnv64a=d9d8e72bd50da078"), ("funcs:scale", "n=30 fnv64a=3b5173cc62d6c994"), ("reads:scale", "n=0 fnv64a=cbf29ce484222325"), ("pwrites:scale", "n=5 fnv64a=057ec4379b47763f"), ("funcs:graph", "n=13 fnv64a=6d127aa916cf372a"), ("reads:graph", "n=0 fnv64a=cbf29ce484222325"), ("pwrites:graph", "n=0 fnv64a=cbf29ce484222325"), ("funcs:graphalg", "n=27 fnv64a=7bc26b7e444e3bd8"), ("reads:graphalg", "n=0 fnv64a=cbf29ce484222325"), ("pwrites:graphalg", "n=4 fnv64a=63704012c05b15a7"), ("funcs:graphout", "n=6 fnv64a=ef4b5ce9d193d85e"), ("reads:graphout", "n=0 fnv64a=cbf29ce484222325"), ("pwrites:graphout", "n=0 fnv64a=cbf29ce484222325")]
+model does not know of. The digest-valued `shape:` entry covers everything the call graph
+(resolved by go/types) reaches from the functions declared in the property's anchor files: per
+function, method (with receiver kind), package variable and constant, its numeric literals, the
+package variables it reads and its writes through parameters or the receiver (including in-place
+`sort.*`/`copy`/`append`). The entries behind the digest are in `shape_expected.txt` and in a
+comment of the generated file. -/
+def stateC20 : List (String × String) := [("globals:stats", "ErrMismatchedSamples ErrSampleSize ErrSamplesEqual ErrZeroVariance MannWhitneyExactLimit MannWhitneyTiesExactLimit StdNormal _KDEBoundaryMethod_index _KDEKernel_index _LocationHypothesis_index inf nan quantileCIApproxThreshold"), ("globals:mathx", "nan smallFact"), ("globals:vec", ""), ("globals:fit", ""), ("globals:scale", ""), ("globals:graph", ""), ("globals:graphalg", ""), ("globals:graphout", ""), ("globalwrites:stats", "MannWhitneyUTest:StdNormal.CDF"), ("globalwrites:mathx", ""), ("globalwrites:vec", ""), ("globalwrites:fit", ""), ("globalwrites:scale", ""), ("globalwrites:graph", ""), ("globalwrites:graphalg", ""), ("globalwrites:graphout", ""), ("fields:stats.Sample", "Xs:[]float64 Weights:[]float64 Sorted:bool"), ("fields:stats.KDE", "Sample:Sample Kernel:KDEKernel Bandwidth:float64 BoundaryMethod:KDEBoundaryMethod BoundaryMin:float64 BoundaryMax:float64"), ("fields:stats.UDist", "N1:int N2:int T:[]int"), ("fields:stats.StreamStats", "Count:uint Total:float64 Min:float64 Max:float64 mean:float64 meanOfSquares:float64 vM2:float64"), ("fields:stats.LinearHist", "min:float64 max:float64 delta:float64 low:uint high:uint bins:[]uint"), ("fields:scale.Linear", "Min:float64 Max:float64 Base:int Clamp:bool"), ("fields:scale.Log", "private:struct{} Min:float64 Max:float64 Base:int Clamp:bool"), ("fields:graphalg.NodeMarks", "marks:[]uint32"), ("fields:fit.PolynomialRegressionResult", "Coefficients:[]float64 F:func(xfloat64)float64"), ("shape:C20", "n=137 fnv64a=d7b8c739220743b5")]
 
 /-- the source has exactly the package-level variables, writers and struct fields the model accounts for -/
 theorem state_C20 : holdsAll stateC20 = true := by decide +kernel
